@@ -272,6 +272,10 @@ pre = lambda line: (lambda S: S["sections"][0]["pre"].append(line))  # noqa: E73
 post = lambda line: (lambda S: S["sections"][0]["post"].append(line))  # noqa: E731
 inst("directive:union-twice", "pre", False, pre("@union"), lambda S: S["sections"][0]["union"])
 inst("directive:union-after-attribute", "post", False, post("@union"))
+inst("directive:union-after-constant", "attrs", False, lambda S: S["sections"][0].update(union=False, attrs=[["const", "uint8", "K0", "1"], ["raw", "@union"], ["field", "uint8", "x"], ["field", "uint8", "y"]]))
+inst("directive:union-after-constant-in-response", "rattrs", False, lambda S: S["sections"][1].update(union=False, attrs=[["const", "uint8", "K0", "1"], ["raw", "@union"], ["field", "uint8", "x"], ["field", "uint8", "y"]]), lambda S: S["kind"] == "service")
+inst("directive:union-before-constant", "attrs", True, lambda S: S["sections"][0].update(union=True, attrs=[["const", "uint8", "K0", "1"], ["field", "uint8", "x"], ["field", "uint8", "y"]]))
+inst("directive:deprecated-after-constant", "attrs", False, lambda S: (S.update(deprecated=False), S["sections"][0].update(union=False, attrs=[["const", "uint8", "K0", "1"], ["raw", "@deprecated"], ["field", "uint8", "x"]])))
 inst("directive:union-with-expression", "pre", False, lambda S: (S["sections"][0].update(union=False), S["sections"][0]["pre"].append("@union 1")))
 inst("directive:deprecated-twice", "pre", False, pre("@deprecated"), lambda S: S["deprecated"])
 inst("directive:deprecated-after-attribute", "post", False, post("@deprecated"))
